@@ -222,7 +222,7 @@ def rule_lists(ctx):
     vw = [(loops, item) for _, loops, item in qp.out if item[0] == "write" and item[1] == " {var}"]
     okv = bool(vw)
     for loops, item in vw:
-        okv = okv and leaves.over_all(loops, ("place", "self.0.variables"), item[2]) == (("ctor", "Format", (("0", ("each", ("place", "self.0.variables"))),)),)
+        okv = okv and leaves.over_all(loops, ("place", "self.0.variables"), item[2]) == leaves.norm((("ctor", "Format", (("0", ("each", ("place", "self.0.variables"))),)),))
     ctx.add("LIST", "Quantification:every-variable", okv, ctx.site(qb), "the variable list is written by one loop over all of `variables` (no filter / dedup / skip)")
     ctx.add("LIST", "Quantification", lits == ["forall", "exists", " {var}"], ctx.site(qb), "a quantification is the quantifier followed by ` variable` for every variable: %s" % lits)
     ab = printers.display_impl(fx, "fol", "AnnotatedFormula")
